@@ -17,7 +17,7 @@
    (not judged).                                                              *)
 EXTENDS Integers, Sequences
 
-Digit == {"0", "1", "2", "Z"}
+Digit == {"0", "1", "2", "9", "Z"}
 Sign == {"+", "-"}
 ExpLetter == {"D", "E"}
 Allowed == Digit \cup Sign \cup ExpLetter \cup {"."}
@@ -50,9 +50,14 @@ Canon(a) == <<a.sign>> \o (IF a.int = <<>> THEN <<"0">> ELSE a.int) \o <<".">>
             \o (IF a.exp = <<>> THEN <<"0">> ELSE a.exp)
 Zero == <<"+", "0", ".", "0", "E", "+", "0">>
 
-\* result: [k |-> "null"] | [k |-> "num", canon] | [k |-> "err"] | [k |-> "unspec"]
+\* pharmpy's missing-data token (DataInfo.missing_data_token / conf.missing_data_token, default -99): an item that IS the
+\* token text is a missing value (NaN), not the number -99
+MissingToken == <<"-", "9", "9">>
+
+\* result: [k |-> "null"] | [k |-> "missing"] | [k |-> "num", canon] | [k |-> "err"] | [k |-> "unspec"]
 Classify(s) ==
     IF s = <<>> \/ s = <<".">> THEN [k |-> "null", canon |-> <<>>]
+    ELSE IF s = MissingToken THEN [k |-> "missing", canon |-> <<>>]
     ELSE IF ~AllAllowed(s) THEN [k |-> "err", canon |-> <<>>]
     ELSE IF ItemLen(s) > 24 THEN [k |-> "err", canon |-> <<>>]
     ELSE IF Len(s) = 1 /\ s[1] \in Sign THEN [k |-> "num", canon |-> Zero]
@@ -61,7 +66,7 @@ Classify(s) ==
          ELSE [k |-> "unspec", canon |-> <<>>]
 
 \* ---- exact value of a number item as <<m, e>> = m * 10^e  (small items only: digits 0 1 2, used by Filter.tla)
-DigitVal(c) == CASE c = "0" -> 0 [] c = "1" -> 1 [] c = "2" -> 2 [] OTHER -> 0
+DigitVal(c) == CASE c = "0" -> 0 [] c = "1" -> 1 [] c = "2" -> 2 [] c = "9" -> 9 [] OTHER -> 0
 RECURSIVE DigitsVal(_, _)
 DigitsVal(s, v) == IF s = <<>> THEN v ELSE DigitsVal(Tail(s), 10 * v + DigitVal(Head(s)))
 NumOf(s) == IF Len(s) = 1 /\ s[1] \in Sign THEN <<0, 0>>
